@@ -182,6 +182,11 @@ def replay_one(ex):
     return probs
 
 
+def replay_line(line):
+    ex = tlc.parse_export(line)
+    return [h["o"] for h in ex["hist"]], ex["base"], replay_one(ex)
+
+
 def main(args):
     ck = Check("C16", args.tier, args.seed)
     quick = args.tier == "quick"
@@ -195,24 +200,32 @@ def main(args):
                "object and format checker is probed after EVERY step (is_type tables, the type keyword, overridden / added "
                "keywords, which id keyword is honoured, format functions) and compared with the model's table; registries "
                "are restored between histories. Non-trivial: a history that creates >= 2 objects; distinct by history." % nops)
-    jobs = [dict(module="mc/MC_C16.tla", cfg="mc/MC_C16_%s_b%d.cfg" % (args.tier, b), workers=4, timeout=7000, heap="5g") for b in (1, 2, 3, 4)]
-    results = tlc.run_many(jobs, parallel=4)
-    exports = []
-    for job, r in zip(jobs, results):
-        if r.violation:
-            raise tlc.MachineryFailure("Registry model violated: %s %s" % (job["cfg"], r.violation))
-        ck.add_tlc(r)
-        exports += r.exports
-    outs = pmap(replay_one, exports, chunk=32)
-    for ex, probs in zip(exports, outs):
-        ck.replayed += 1
-        ops = [h["o"] for h in ex["hist"]]
-        ck.count(repr(ops), sum(1 for o in ops if "new" in o) >= 2)
-        for step, kind, idx, got, want in probs:
-            ck.violation(kind, {"base_draft": (3, 4, 6, 7)[ex["base"] - 1], "operations": ops, "failing_step": step,
-                                "object": "%s #%s" % (kind, idx), "observed_behaviour": got, "model_behaviour": want,
-                                "source": "MC_C16"})
+    jobs = [dict(module="mc/MC_C16.tla", cfg="mc/MC_C16_%s_b%d.cfg" % (args.tier, b), workers=4 if quick else 16, timeout=7000,
+                 heap="5g" if quick else "12g", lazy_exports=True) for b in (1, 2, 3, 4)]
+    # quick: the four base drafts in parallel JVMs; thorough: one after the other, each batch replayed and dropped before
+    # the next (the histories of 4 operations with their probe tables do not fit in memory together)
+    batches = [tlc.run_many(jobs, parallel=4)] if quick else ([tlc.run(**j)] for j in jobs)
+    mid = None
+    for results in batches:
+        lines = []
+        for r in results:
+            if r.violation:
+                raise tlc.MachineryFailure("Registry model violated: %s" % r.violation)
+            ck.add_tlc(r)
+            lines += r.exports
+            r.exports = []
+        outs = pmap(replay_line, lines, chunk=32)
+        for ops, base, probs in outs:
+            ck.replayed += 1
+            ck.count(repr(ops), sum(1 for o in ops if "new" in o) >= 2)
+            for step, kind, idx, got, want in probs:
+                ck.violation(kind, {"base_draft": (3, 4, 6, 7)[base - 1], "operations": ops, "failing_step": step,
+                                    "object": "%s #%s" % (kind, idx), "observed_behaviour": got, "model_behaviour": want,
+                                    "source": "MC_C16"})
+        if outs and mid is None:
+            ops, base, _ = outs[len(outs) // 2]
+            mid = {"base_draft": (3, 4, 6, 7)[base - 1], "operations": ops}
+        del lines, outs
     ck.exhaustive = True
-    mid = exports[len(exports) // 2]
-    ck.sample({"base_draft": (3, 4, 6, 7)[mid["base"] - 1], "operations": [h["o"] for h in mid["hist"]]})
+    ck.sample(mid)
     return ck.finish()
